@@ -3,7 +3,7 @@
 cd /verif
 for d in seeded/*/; do
   id=$(basename $d); p=${id%%-*}; by=$(python3 -c "import json;print(json.load(open(\"/verif/$d/meta.json\")).get(\"caught_by_check_of\",\"\"))"); [ -n "$by" ] && p=$by
-  out=$(tools/seedtest.sh $p /verif/$d/patch.diff quick 40 2>&1)
+  out=$(VERIF_BUDGET=${MATRIX_BUDGET:-90} tools/seedtest.sh $p /verif/$d/patch.diff quick 40 2>&1)
   rc=$(echo "$out" | grep -oE "exit [0-9]" | tail -1)
   hit=$(echo "$out" | grep -m1 "harness=" | sed 's/^ *//' | cut -c1-150)
   echo "$id | $rc | $hit"
